@@ -503,6 +503,60 @@ async fn main(plan: Plan) -> Outcome {
     for m in late.lock().unwrap().iter() {
         out.violation("c19.event_not_reflected", m.clone());
     }
+    // A total outage (1 in 4 runs with >= 2 members): the control host fails every system
+    // read, every other member is unreachable (connection attempts hang until the connect
+    // timeout). Nothing is queued at this point; ONE refresh_metadata() call must still be
+    // answered - with an error - after some rounds of failed attempts. A round takes at most
+    // 5 s per member; the driver picks a queued request up after a round with probability
+    // 1/2 (its inter-attempt sleep has expired by then), hence the long deadline.
+    {
+        let members: Vec<usize> = {
+            let w = world::world();
+            w.cluster.nodes.iter().filter(|n| n.in_ring && n.up).map(|n| n.id).collect()
+        };
+        if members.len() >= 2 && tape::chance("c19:total_outage_phase", 1, 4) {
+            {
+                let mut w = world::world();
+                let cc_node = w
+                    .conns
+                    .iter()
+                    .find(|c| !c.srv_closed && !c.client_closed && !c.cql.registered.is_empty())
+                    .map(|c| c.node)
+                    .unwrap_or(members[0]);
+                for n in &members {
+                    if *n == cc_node {
+                        w.cluster.nodes[*n].system_queries_fail_until = u64::MAX;
+                    } else {
+                        w.cluster.nodes[*n].partitioned = true;
+                        for c in w.live_conns_of(*n) {
+                            w.stall_conn(c);
+                        }
+                    }
+                }
+                w.fault(Fault::SrvError);
+                w.log(&format!("total_outage control_host={cc_node}"));
+                w.probe("total_outage_phase");
+            }
+            world::sleep_ns(20 * SEC).await;
+            if tokio::time::timeout(Duration::from_secs(1500), session.refresh_metadata()).await.is_err() {
+                out.violation(
+                    "c19.refresh_unanswered",
+                    format!("refresh_metadata() called during a total outage ({} members: the control host fails its system reads, the others are unreachable) with nothing else queued was not answered within 1500 virtual s", members.len()),
+                );
+            }
+            refreshes += 1;
+        }
+    }
+    // Faults stop: every member serves system reads again and is reachable again.
+    {
+        let mut w = world::world();
+        for n in w.cluster.nodes.iter_mut() {
+            n.system_queries_fail_until = 0;
+            n.partitioned = false;
+        }
+        w.log("healed");
+    }
+    world::sleep_ns(60 * SEC).await;
     // Quiescence: faults stopped. One explicit refresh must be answered, and after
     // it (or a refresh interval) the published node set equals the cluster's.
     world::sleep_ns(8 * SEC).await;
